@@ -729,3 +729,25 @@ func paramBehind(fn *ssa.Function, v ssa.Value) (int, bool) {
 	}
 	return 0, false
 }
+
+// LeadsOnlyToReturns: every path from b ends in a return satisfying ok (or never returns).
+func LeadsOnlyToReturns(b *ssa.BasicBlock, ok func(*ssa.Return) bool) bool {
+	seen := map[*ssa.BasicBlock]bool{}
+	var rec func(x *ssa.BasicBlock) bool
+	rec = func(x *ssa.BasicBlock) bool {
+		if seen[x] {
+			return true
+		}
+		seen[x] = true
+		if ret, isRet := x.Instrs[len(x.Instrs)-1].(*ssa.Return); isRet {
+			return ok(ret)
+		}
+		for _, s := range x.Succs {
+			if !rec(s) {
+				return false
+			}
+		}
+		return true
+	}
+	return rec(b)
+}
